@@ -7,7 +7,7 @@ from hypothesis import strategies as st
 
 from mv import gen_geom, geom
 from mv.quiet import silenced
-from mv.runner import EnumPart, HypPart, Violation
+from mv.runner import FuzzPart, EnumPart, HypPart, Violation
 
 PROPERTY = "C17"
 RULE = ("Exhaustive sweep over all unordered element pairs of the covalent-radius table (two-atom structures, elements "
@@ -240,4 +240,5 @@ def structure_oracle(case, stats):
 PARTS = [
     EnumPart("all-element-pairs", pair_cases, pair_oracle, chunk=2000),
     HypPart("structures", lambda tier: structure_case(), structure_oracle, {"quick": 3000, "thorough": 40000}),
+    FuzzPart("coverage-guided-structures", "structures", runs=5000),
 ]
